@@ -656,7 +656,9 @@ func scenarioLossyPosts(o *common.Opts, idx int, st *stats) string {
 // leader's appends arrive. Every acknowledged write - small or large - must be on every node, once, unchanged.
 func scenarioBigLog(o *common.Opts, idx int, st *stats) string {
 	dir := filepath.Join(o.Work, fmt.Sprintf("c08big-%d", idx))
-	c, err := cluster.New(dir, 3, false, nil)
+	// every log write takes 40 ms: between two writes a node has entries in memory that are not in its log yet, which is
+	// when a page cut short by the size limit meets entries of the other kind
+	c, err := cluster.New(dir, 3, false, []string{"VERIF_FP=beforeWalSave=sleep:40"})
 	if err != nil {
 		return err.Error()
 	}
@@ -682,10 +684,10 @@ func scenarioBigLog(o *common.Opts, idx int, st *stats) string {
 	}
 	victim := lead%3 + 1
 	w := newWorkload(c)
-	w.rate = 200
+	w.rate = 300
 	w.retry = 3 * time.Millisecond
 	w.simple = true
-	wg := w.run(1, o.Seed*7907+int64(idx))
+	wg := w.run(2, o.Seed*7907+int64(idx))
 	time.Sleep(800 * time.Millisecond)
 	c.Kill(victim)
 	st.nemesis++
